@@ -4,12 +4,37 @@ COMMON_ASSUMPTIONS = [
     'every assume_specification / external_body / axiom listed in coverage.trusted_base (contracts on std and on callees not under contract)',
     'Vec/slice lengths <= isize::MAX (Rust allocation guarantee)',
     'R2: the lock guard held by the real function is the shard of (db,key) and gives exclusive access; lock poisoning and the InvalidDatabase path are outside the unit',
+    'all clock reads inside one storage operation return the same instant (spec_now); Instant + Duration does not overflow (precondition left to callers)',
+    'mark_modified(&self) is modelled as appending the key to a ghost log (interior mutability of ShardWatchTracker is outside Verus)',
 ]
+
+SHARD_VALUE_UNITS = ['vm_new', 'vm_with_expiration', 'vm_is_expired', 'vm_set_expiration', 'vm_clear_expiration',
+                     'sv_new', 'sv_with_expiration', 'sv_is_expired', 'value_integer', 'value_as_integer']
 
 PROPS = {
     'C01': {
         'level': 'proof',
-        'verus': [{'group': 'c01_strings_arith'}],
-        'explanation': 'kernel-scoped: storage-engine string/key functions proved against Redis-semantics spec functions; handlers/dispatch are unverified surroundings',
+        'verus': [{'group': 'shard_core'}],
+        'explanation': 'kernel-scoped: storage-engine string/key functions proved against Redis-semantics spec functions on one shard; handlers/dispatch are unverified surroundings',
+    },
+    'C02': {
+        'level': 'proof',
+        'verus': [{'group': 'shard_core'}],
+        'explanation': 'deadline-index invariant index_ok preserved by every shard operation under contract; lazy expiry of get/exists/set_nx; ttl arithmetic',
+    },
+    'C03': {
+        'level': 'proof',
+        'verus': [{'group': 'c03_lists_arith'}],
+        'explanation': 'index arithmetic of list commands against spec_range',
+    },
+    'C04': {
+        'level': 'proof',
+        'verus': [{'group': 'c04_zset_arith'}],
+        'explanation': 'rank-range arithmetic of ZRANGE/ZREVRANGE/ZRANK against spec_zrange with the skip list behind an assumed contract',
+    },
+    'C08': {
+        'level': 'proof',
+        'verus': [{'group': 'shard_core'}],
+        'explanation': 'every shard mutator under contract marks the key it changes and no other (step_ok)',
     },
 }
